@@ -343,15 +343,26 @@ func runC13(cfg runCfg) error {
 		name := fmt.Sprintf("c13-%d-%d", cfg.seed, i)
 		lim := limits[r.Intn(len(limits))]
 		env := envs[lim]
-		env.world.data = genData(r, env.fed, dataOpts{nullProb: 0.1, safeStrings: true})
+		big := lim >= 1 && lim <= 3 && r.Intn(3) == 0
+		do := dataOpts{nullProb: 0.1, safeStrings: true}
+		if big { // one lookup round carries more than 50 ids: single-entity lookups go out as several batch documents
+			do.bigType = "Movie"
+		}
+		env.world.data = genData(r, env.fed, do)
 		qo := qOpts{maxDepth: 3 + r.Intn(3), fragments: r.Intn(4) == 0, aliases: true, typename: true, args: true, safeStrings: true}
 		q, vars, doc := env.genBoundedQuery(r, qo, 300)
+		if big {
+			q = "query Op { movies { id " + []string{"rating", "score rating", "rating title", "title"}[r.Intn(4)] + " } }"
+			vars = map[string]interface{}{}
+			doc, _ = loadQuery(env.gw.es.MergedSchema, q)
+			sum.Features["batched_round"]++
+		}
 		if doc == nil {
 			continue
 		}
 		var faults []faultSpec
 		cancelAt := -1
-		switch r.Intn(5) {
+		switch r.Intn(5)*map[bool]int{true: 0, false: 1}[big] + map[bool]int{true: 4, false: 0}[big] {
 		case 0:
 			svc := env.fed.Services[r.Intn(len(env.fed.Services))].Name
 			faults = append(faults, faultSpec{Svc: svc, Target: "*", Kind: faultKinds[r.Intn(len(faultKinds))]})
@@ -374,7 +385,7 @@ func runC13(cfg runCfg) error {
 		for _, rq := range run.Requests {
 			if faultTarget(env.fed, rq) == "root" {
 				roots[rq.Svc]++
-			} else {
+			} else if batchIndex(rq) == 0 { // the further batch documents of a round belong to the same round
 				lookups++
 			}
 		}
